@@ -483,7 +483,7 @@ def run(env):
         ftext = build_foreign(env).text()
         foreign = {}
         # (target, cargo features): conjunctions of target and feature set select code too (e.g. a 32-bit no-alloc path)
-        for target, feats in (("i686-unknown-linux-gnu", None), ("s390x-unknown-linux-gnu", None), ("aarch64-unknown-linux-gnu", None),
+        for target, feats in (("i686-unknown-linux-gnu", None), ("s390x-unknown-linux-gnu", None), ("aarch64-unknown-linux-gnu", None), ("powerpc-unknown-linux-gnu", None),
                               ("i686-unknown-linux-gnu", ["x25519"]), ("s390x-unknown-linux-gnu", ["x25519", "std"])):
             sessions, note = fw.run_miri(env, "foreign-" + target.split("-")[0] + ("-" + "-".join(feats) if feats else ""), ftext, target=target, features=feats)
             foreign[target + ("+" + ",".join(feats) if feats else "")] = note
